@@ -93,4 +93,61 @@ def St.removeFromStorage (s : St) (g : Guid) (st : Storage) (ps : List Path) (se
   | none => (st, .refused)
   | some l => storageDelete g st (order l)
 
+/-! ## the final step of `fetch` under a fault: the move from the temporary directory into the cache
+
+  `move_to_cache(temp file, cache path)` may fail or be cut short like every other write: disk full,
+  quota, file size limit (`ENOSPC`, `EDQUOT`, `EFBIG`), or the process is killed.  The outcome of the
+  step is a parameter, like the outcome of a download command. -/
+
+/-- outcome of the final step for one downloaded object -/
+inductive Mv where
+  | ok
+  | fails (written : Nat)   -- the step fails or the process dies; where bytes were being copied, after `written` of them
+  deriving DecidableEq, Repr
+
+/-- what the step leaves: the repository state (the cache maps ADDRESSES to objects), the file under
+    the hidden name `.0.<ext>.xvc-tmp` next to the cache path (NOT a cache address, so not part of the
+    state), and whether the step completed -/
+structure Moved where
+  st : St
+  hidden : Option Bytes
+  done : Bool
+
+/-- `move_to_cache` as the code does it.  Same file system: `rename`, which happens as a whole or not
+    at all.  Another file system: copy to the hidden name in the cache directory, `rename` from there;
+    a fault during the copy leaves a partial HIDDEN file and no object.  Either way the object appears
+    at its address atomically or not at all. -/
+def moveInF (tmpSameFs : Bool) (s : St) (a : Addr) (b : Bytes) : Mv → Moved
+  | .ok => ⟨moveIn tmpSameFs s a b, none, true⟩
+  | .fails n => ⟨s, if tmpSameFs then none else some (b.take n), false⟩
+
+/-- the variant that is NOT the code: on another file system copy straight ONTO the cache path
+    (`fs::copy(temp file, cache path)`); a fault leaves the copied prefix at the address, still writable -/
+def moveInPlace (tmpSameFs : Bool) (s : St) (a : Addr) (b : Bytes) : Mv → Moved
+  | .ok => ⟨moveIn tmpSameFs s a b, none, true⟩
+  | .fails n =>
+    if tmpSameFs then ⟨s, none, false⟩
+    else ⟨(s.setCache a (some ⟨b.take n, false, s.clock⟩)).tick, none, false⟩
+
+/-- `fetch` with a fault parameter for the final step.  The downloaded objects are moved one after the
+    other in the order of the list (the code iterates a `BTreeSet` of cache paths: the driver passes
+    that order); the first move that fails ends the command (`uwr!` panics, or the process is dead):
+    later objects are not moved and nothing is rechecked. -/
+def fetchWith (mv : Bool → St → Addr → Bytes → Mv → Moved) (tmpSameFs : Bool) (g : Guid) (st : Storage) :
+    St → List (Addr × Dl × Mv) → St × Out
+  | s, [] => (s, .ok)
+  | s, x :: l =>
+    if (s.cache x.1).isSome then fetchWith mv tmpSameFs g st s l
+    else
+      match received g st x.1 x.2.1, tempFile g st x.1 x.2.1 with
+      | true, some b =>
+        let r := mv tmpSameFs s x.1 b x.2.2
+        if r.done then fetchWith mv tmpSameFs g st r.st l else (r.st, .panic)
+      | _, _ => fetchWith mv tmpSameFs g st s l
+
+/-- the code -/
+def fetchF := fetchWith moveInF
+/-- the in-place variant (not the code) -/
+def fetchInPlace := fetchWith moveInPlace
+
 end Repo
